@@ -18,6 +18,78 @@ META = {
     "level_note": "Trusted: coqc kernel; the model treats queue.put/pop as atomic (C04) and one direction of a session at a time; one writer thread per stream; timers of waitForSend/Flush retries are not modelled; real-session scenarios are sampled; the callback-mode clause has its own small model (Model/MuxCallback.v: fillDataToReadBuffer's goroutine and halfClose) tied to the code by the directed scenario c only.",
 }
 
+SWITCH_FILE = os.path.join(core.COQ, "theories", "Gen", "SwitchC07.v")
+
+
+def strip_comments(src):
+    src = re.sub(r"/\*.*?\*/", "", src, flags=re.S)
+    return re.sub(r"//[^\n]*", "", src)
+
+
+def func_body(src, header):
+    i = src.find(header)
+    if i < 0:
+        return None
+    j = src.find("\n}\n", i)
+    return re.sub(r"\s+", " ", strip_comments(src[i:j]))
+
+
+def scan_switch():
+    """Translator for the switch of Model/Mux.v: how do the statements of the source that set / test
+    Stream.inFallbackState maintain it?  Returns (sticky, description, error); anything that is not one of the
+    known shapes is an error (= broken correspondence)."""
+    try:
+        stream = open(os.path.join(core.REPO, "stream.go")).read()
+    except OSError as ex:
+        return None, None, "cannot read stream.go: %s" % ex
+    flush = func_body(stream, "func (s *Stream) Flush(endStream bool) error {")
+    close = func_body(stream, "func (s *Stream) close() error {")
+    reset = func_body(stream, "func (s *Stream) reset() error {")
+    move = func_body(stream, "func (r *pendingData) moveToWithoutLock(toBuf *linkedBuffer) {")
+    if None in (flush, close, reset, move):
+        return None, None, "cannot find Stream.Flush / close / reset / pendingData.moveToWithoutLock in stream.go"
+    def count(body):
+        return len(re.findall(r"inFallbackState", body))
+    if "if s.inFallbackState { return s.writeFallback(" not in flush:
+        return None, None, "Stream.Flush no longer tests inFallbackState right before writeFallback"
+    if "if !s.inFallbackState { err := s.session.sendQueue().put(queueElement{seqID: s.id, status: uint32(streamClosed)})" not in close or count(close) != 1:
+        return None, None, "Stream.close no longer has the shape 'put the close element only if !inFallbackState, else the stream-close event through the socket'"
+    if "s.inFallbackState = false" not in reset or count(reset) != 1:
+        return None, None, "Stream.reset does not clear inFallbackState in the known way"
+    if "r.stream.inFallbackState = true" not in move or count(move) != 1:
+        return None, None, "pendingData.moveToWithoutLock does not set inFallbackState on received fallback data in the known way"
+    total = len(re.findall(r"inFallbackState", strip_comments(stream)))
+    if total != 1 + count(flush) + 3:   # the field declaration + the four functions
+        return None, None, "stream.go mentions inFallbackState in a place the translator does not know (%d mentions)" % total
+    others = []
+    for f in sorted(os.listdir(core.REPO)):
+        if f.endswith(".go") and not f.endswith("_test.go") and f != "stream.go":
+            n = len(re.findall(r"inFallbackState", strip_comments(open(os.path.join(core.REPO, f)).read())))
+            if n:
+                others.append((f, n))
+    if others != [("session_manager.go", 1)]:
+        return None, None, "inFallbackState is used outside stream.go in an unknown way: %s" % others
+    sticky = "if !s.sendBuf.isFromShareMemory() { s.inFallbackState = true } if s.inFallbackState {" in flush and count(flush) == 2
+    unsticky = "s.inFallbackState = !s.sendBuf.isFromShareMemory() if s.inFallbackState {" in flush and count(flush) == 2
+    if sticky:
+        return True, "Flush only ever sets inFallbackState (sticky)", None
+    if unsticky:
+        return False, "Flush assigns inFallbackState from the current buffer (a stream returns to the queue when shm recovers)", None
+    return None, None, "Stream.Flush maintains inFallbackState in a way the translator does not know"
+
+
+def write_switch(sticky):
+    txt = ("(* GENERATED from /repo's stream.go by props/C07.py (mechanism G for the switch of Model/Mux.v). Do not edit. *)\n"
+           "(* true: Stream.Flush only ever SETS inFallbackState (sticky: a stream switches from the queue to the socket once);\n"
+           "   false: Flush assigns it from the current buffer (the stream returns to the queue when shm recovers). *)\n"
+           "Definition sw_fallback_sticky : bool := %s.\n" % ("true" if sticky else "false"))
+    with core.Lock("coq"):
+        old = open(SWITCH_FILE).read() if os.path.exists(SWITCH_FILE) else None
+        if old != txt:
+            with open(SWITCH_FILE, "w") as fh:
+                fh.write(txt)
+
+
 EXPECTED_RACES = ["C07:close-overtakes-fallback-data", "C07:fallback-overtakes-unpublished-wakeup",
                   "C07:callback-mode-data-before-peer-close-never-offered"]
 
@@ -71,15 +143,21 @@ def model_case(c, d):
             progs[i].append("OClose %s" % ("true" if h["via"] == "sock" else "false"))
         if kind == "sequential":
             acts += ["ADo %d" % i, "AStep WSend 6", "AStep WCons 90"]
-        elif kind.startswith("directed-a") or kind.startswith("directed-d"):
+        elif kind.startswith(("directed-a", "directed-d", "directed-f")):
             acts += ["ADo %d" % i]
-    if kind.startswith("directed-a") or kind.startswith("directed-d"):
+    if kind.startswith(("directed-a", "directed-d", "directed-f")):
         acts += ["AStep WCons 150"]
     elif kind.startswith("directed-b"):
         if [(h["stream"], h["kind"], h["via"]) for h in hist] != [(pipes[1]["stream"], "w", "shm"), (pipes[1]["stream"], "w", "sock"), (pipes[0]["stream"], "w", "shm")]:
             return None
         # the history log records completions: T1 (stream index 0) started first and was paused after markWorking
         progs = [["OFlush true false"], ["OFlush true false", "OFlush false false"]]
+        acts = ["AStep (WProd 0) 2", "ADo 1", "ADo 1", "AStep WCons 20", "AStep (WProd 0) 4", "AStep WCons 90"]
+    elif kind.startswith("directed-g"):
+        if [(h["stream"], h["kind"]) for h in hist] != [(pipes[1]["stream"], "w"), (pipes[1]["stream"], "c"), (pipes[0]["stream"], "w")]:
+            return None
+        # T1 (stream index 0) paused after markWorking; stream 1: first data element, then Close with the queue full
+        progs = [["OFlush true false"], ["OFlush true false", "OClose %s" % ("true" if hist[1]["via"] == "sock" else "false")]]
         acts = ["AStep (WProd 0) 2", "ADo 1", "ADo 1", "AStep WCons 20", "AStep (WProd 0) 4", "AStep WCons 90"]
     elif kind != "sequential":
         return None
@@ -135,6 +213,11 @@ def check(run):
     data, gerr = gen.regenerate()
     if gerr:
         run.add_corr_break("G: " + gerr)
+    sticky, sdesc, serr = scan_switch()
+    if serr:
+        run.add_corr_break("G: " + serr)
+    else:
+        write_switch(sticky)
     run.proof = core.proof_step(PROP, run.tier)
     n = 24 if run.tier == "quick" else 600
     cases, err = run_harness(n, run.seed, run.tier)
@@ -179,6 +262,7 @@ def check(run):
         "kinds": kinds, "features": feats, "messages_flushed": msgs,
         "histories_replayed_on_model": compared,
         "races_reproduced_on_unchanged_code": reproduced,
+        "switch_fallback_sticky": sdesc if not serr else "UNKNOWN SHAPE: " + serr,
     })
     run.assumptions += [
         "one writer thread per stream and direction (Stream is not safe for concurrent writers)",
